@@ -2,3 +2,5 @@
 pub mod layout;
 pub mod mock;
 pub mod world;
+#[cfg(feature = "xen")]
+pub mod xenemu;
